@@ -20,8 +20,9 @@ SIGMA = ['a', ' ', '\n', '-', ':', '[', ']', '{', '}', ',', '?', '#', '&', '*', 
 BYTES = [0x00, 0x09, 0x0a, 0x0d, 0x20, 0x22, 0x2d, 0x3a, 0x61, 0x7f, 0x80, 0xbf, 0xc0, 0xc2, 0xe0, 0xed, 0xef,
          0xbb, 0xf0, 0xf4, 0xfe, 0xff, 0xd8, 0xdc, 0xa0]
 DIR_PIECES = ['YAML', 'TAG', 'FOO', ' ', '1', '.', '1.1', '1.2', '2.0', '!', '!!', '!e!', 'tag:x,', '%41', '%zz', '%C3',
-              '%C3%A9', '99999999999999999999', '\n', '#c', 'a']
+              '%C3%A9', '99999999999999999999', '\n', '#c', 'a', '9' * 4301, '9' * 5000]
 TAG_PIECES = ['!', '<', '>', '%', '41', 'zz', 'C3', 'a', ' ', 'tag:', ',', '\n']
+LONG_DIGIT_DOCS = ['%YAML ' + '1' * 5000 + '.1\n---\n', '%YAML 1.' + '1' * 4301 + '\n---\n', '1' * 5000, '- ' + '1' * 4301 + ':30', '0x' + 'f' * 5000, '!!int ' + '7' * 5000, 'k: |' + '9' * 5000, '&' + '1' * 5000 + ' x', '--- >' + '1' * 4400]
 HEX_TAILS = ['', '0', '00', '41', '004', '0041', '00000', '000041', '0000004', '00000041', 'D800', 'DFFF', 'FFFE',
              '00110000', '0010FFFF', '7FFFFFFF', '80000000', 'FFFFFFFF', 'zz', '0g', '0000D800', '0000FFFF', '00000000']
 
@@ -124,6 +125,7 @@ def plan(tier, seed):
     tl = 4 if q else 5
     jobs += [('tag', tl, i) for i in range(len(TAG_PIECES))]
     jobs += [('nest', i) for i in range(NFAM)]
+    jobs += [('longdigits',)]
     return jobs
 
 
@@ -218,6 +220,14 @@ def run_job(job, T):
                 if T.trace: T.begin(c)
                 run_input(T, 'corpus-edits', c, s, apis=CAPI)
         T.sample('corpus-edits', c)
+    elif kind == 'longdigits':
+        # digit runs beyond the interpreter's int<->str conversion limit (4300), wherever the scanner/resolver/constructor converts numbers
+        for s_ in LONG_DIGIT_DOCS:
+            c = {'input': s_}
+            if T.trace: T.begin(c)
+            run_input(T, 'long-digit-runs', c, s_)
+            run_input(T, 'long-digit-runs', {'input': s_, 'via': 7}, s_, via=7)
+        T.sample('long-digit-runs', {'input': s_[:40] + '...'})
     elif kind == 'nest':
         for n in (1, 2, 3, 10, 50, 100, 150):
             s = nest_family(job[1], n)
